@@ -474,7 +474,9 @@ ForeachR(src, i, s, K, acc, dummy) ==
            e == IF K.has THEN BindR(R(r.out, OK), [k |-> "pipe", ast |-> K.ext, env |-> env2]) ELSE R(r.out, OK)
        IN IF e.end.k # "ok" THEN R(acc \o e.out, e.end)
           ELSE IF r.end.k # "ok" THEN R(acc \o e.out, r.end)
-          ELSE ForeachR(src, i + 1, IF r.out = <<>> THEN s ELSE r.out[Len(r.out)], K, acc \o e.out, 0)
+          \* an update that yields nothing leaves the state variable null (jq moves the state out
+          \* with LOADVN; recording foreach_empty_step_skip: [1,3], not [1,4])
+          ELSE ForeachR(src, i + 1, IF r.out = <<>> THEN Null ELSE r.out[Len(r.out)], K, acc \o e.out, 0)
 
 \* keys [f] of every element for sort_by / group_by / unique_by / min_by / max_by
 \* returns R(<<pairs>>, OK) as a one-element out holding nothing: encoded as [ok, pairs, end]
@@ -595,7 +597,7 @@ B0(f, in, env) ==
          \* def reverse: [.[length - 1 - range(0;length)]];
         (CASE in.t = "arr" -> R1(Arr(RevSeq(in.v)))
            [] in.t = "null" -> R1(Arr(<<>>))
-           [] in.t = "str" -> IF in.cp = <<>> THEN R1(Arr(<<>>)) ELSE ECannotIndex(in, NumI(0))
+           [] in.t = "str" -> IF in.cp = <<>> THEN R1(Arr(<<>>)) ELSE ECannotIndex(in, NumI(0))   \* def reverse: [.[length - 1 - range(0;length)]]
            [] in.t = "num" -> IF ~IsInt(in) THEN RSkip ELSE IF in.n = 0 THEN R1(Arr(<<>>)) ELSE ECannotIndex(in, NumI(0))
            [] in.t = "bool" -> RMsg(<<Dump(in), M_no_length>>)
            [] in.t = "obj" -> IF in.kv = <<>> THEN R1(Arr(<<>>)) ELSE ECannotIndex(in, NumI(0)))
@@ -621,7 +623,10 @@ B0(f, in, env) ==
          IN R([i \in 1..Len(lf) |-> Arr(lf[i])], OK)
     [] f \in {"recurse", ".."} -> R(RecurseAll(in), OK)
     [] f = "tostream" -> R(StreamOf(in, <<>>), OK)
-    [] f = "flatten" -> Call("flatten", <<NumI(-1)>>, in, env)
+    [] f = "flatten" ->
+        (CASE in.t = "arr" -> R1(Arr(FlattenV(in.v, -1)))
+           [] in.t = "obj" -> R1(Arr(FlattenV(ObjVals(in), -1)))
+           [] OTHER -> ECannotIterate(in))
     [] f = "tojson" -> R1(Str(ToJsonCP(in)))
     [] f = "tostring" -> IF in.t = "str" THEN R1(in) ELSE R1(Str(ToJsonCP(in)))
     [] f = "ascii_downcase" -> IF in.t = "str" THEN R1(Str(LowerCP(in.cp))) ELSE RErr(M_explode)
